@@ -1794,16 +1794,18 @@ class LeCreditBasedChannel(utils.EventEmitter):
             self.in_sdu_length = 0
             return
 
-        # Send the SDU to the sink
+        # Prepare for a new SDU (before the sink runs: if it raises, the next PDU
+        # must still start a new SDU)
         logger.debug(f'SDU complete: 2+{len(self.in_sdu) - 2} bytes')
+        sdu = self.in_sdu[2:]
+        self.in_sdu = None
+        self.in_sdu_length = 0
+
+        # Send the SDU to the sink
         if self.sink is None:
             logger.warning('received SDU without a sink, dropping')
         else:
-            self.sink(self.in_sdu[2:])  # pylint: disable=not-callable
-
-        # Prepare for a new SDU
-        self.in_sdu = None
-        self.in_sdu_length = 0
+            self.sink(sdu)  # pylint: disable=not-callable
 
     def on_connection_response(
         self, response: L2CAP_LE_Credit_Based_Connection_Response
